@@ -11,7 +11,7 @@ package suites
 // bytes never shared, deterministic signing, every single-bit flip rejected by the
 // real glow.Verify, JSON transport exact) is evaluated on the implementation alone.
 //
-// Hostile stream headers (a huge device count on a short input) are decoded in a
+// Hostile stream headers (a huge device count on a ccShort input) are decoded in a
 // CHILD process (this binary re-executed with VERIF_CODEC_CHILD=stream under
 // `ulimit -v`), so that a fatal out-of-memory error kills only the child.
 
@@ -59,14 +59,14 @@ func codecChild() {
 	fmt.Printf("RES ok %d %d %d\n", n, ads.TimeslotOffset, len(ads.Devices))
 }
 
-const childLimitKB = 2 * 1024 * 1024 // address space of the child: 2 GB
+const ccChildLimitKB = 2 * 1024 * 1024 // address space of the child: 2 GB
 
-// runStreamChild decodes b with the real stream decoder in a child process.
+// ccRunStreamChild decodes b with the real stream decoder in a child process.
 // class: "ok" | "err" | "fatal" (the process died or did not answer).
-func runStreamChild(b []byte) (class string, consumed int, detail string) {
+func ccRunStreamChild(b []byte) (class string, consumed int, detail string) {
 	ctx, cancel := context.WithTimeout(context.Background(), 60*time.Second)
 	defer cancel()
-	cmd := exec.CommandContext(ctx, "sh", "-c", fmt.Sprintf("ulimit -v %d; exec \"$0\"", childLimitKB), os.Args[0])
+	cmd := exec.CommandContext(ctx, "sh", "-c", fmt.Sprintf("ulimit -v %d; exec \"$0\"", ccChildLimitKB), os.Args[0])
 	cmd.Env = append(os.Environ(), "VERIF_CODEC_CHILD=stream", "VERIF_CODEC_INPUT="+hex.EncodeToString(b), "GOTRACEBACK=none")
 	out, err := cmd.CombinedOutput()
 	s := string(out)
@@ -96,12 +96,12 @@ func runStreamChild(b []byte) (class string, consumed int, detail string) {
 
 // ---------------------------------------------------------------- generators
 
-var u32Boundary = []uint32{0, 1, 2, 255, 256, 0x7fffffff, 0x80000000, 0xfffffffe, 0xffffffff, 0x04030201}
-var u64Boundary = []uint64{0, 1, 23, 24, 255, 256, 1<<32 - 1, 1 << 32, 1<<63 - 1, 1 << 63, 1<<64 - 2, 1<<64 - 1, 0x0807060504030201}
-var u16Boundary = []uint16{0, 1, 255, 256, 0x7fff, 0x8000, 0xffff, 0x0201}
+var ccU32Boundary = []uint32{0, 1, 2, 255, 256, 0x7fffffff, 0x80000000, 0xfffffffe, 0xffffffff, 0x04030201}
+var ccU64Boundary = []uint64{0, 1, 23, 24, 255, 256, 1<<32 - 1, 1 << 32, 1<<63 - 1, 1 << 63, 1<<64 - 2, 1<<64 - 1, 0x0807060504030201}
+var ccU16Boundary = []uint16{0, 1, 255, 256, 0x7fff, 0x8000, 0xffff, 0x0201}
 
 // NaN-free float64 bit patterns: zeros, subnormals, normals, 17-digit values, infinities
-var f64Boundary = []uint64{
+var ccF64Boundary = []uint64{
 	0, 0x8000000000000000, 1, 0x8000000000000001, 0x000fffffffffffff, 0x0010000000000000,
 	0x3ff0000000000000, 0xbff0000000000000, 0x7fefffffffffffff, 0xffefffffffffffff,
 	0x7ff0000000000000, 0xfff0000000000000,
@@ -110,34 +110,36 @@ var f64Boundary = []uint64{
 	math.Float64bits(-89.99999999999999), math.Float64bits(179.99999999999997),
 }
 
-func genU32(r *core.RNG) uint32 {
+func ccGenU32(r *core.RNG) uint32 {
 	if r.Chance(40) {
-		return u32Boundary[r.Intn(len(u32Boundary))]
+		return ccU32Boundary[r.Intn(len(ccU32Boundary))]
 	}
 	return uint32(r.U64())
 }
-func genU64(r *core.RNG) uint64 {
+func ccGenU64(r *core.RNG) uint64 {
 	if r.Chance(40) {
-		return u64Boundary[r.Intn(len(u64Boundary))]
+		return ccU64Boundary[r.Intn(len(ccU64Boundary))]
 	}
 	return r.U64()
 }
-func genU16(r *core.RNG) uint16 {
+func ccGenU16(r *core.RNG) uint16 {
 	if r.Chance(40) {
-		return u16Boundary[r.Intn(len(u16Boundary))]
+		return ccU16Boundary[r.Intn(len(ccU16Boundary))]
 	}
 	return uint16(r.U64())
 }
-func isNaNBits(u uint64) bool { return u&0x7ff0000000000000 == 0x7ff0000000000000 && u&0x000fffffffffffff != 0 }
-func genF64(r *core.RNG, finite bool) uint64 {
+func ccIsNaNBits(u uint64) bool {
+	return u&0x7ff0000000000000 == 0x7ff0000000000000 && u&0x000fffffffffffff != 0
+}
+func ccGenF64(r *core.RNG, finite bool) uint64 {
 	for {
 		var u uint64
 		if r.Chance(50) {
-			u = f64Boundary[r.Intn(len(f64Boundary))]
+			u = ccF64Boundary[r.Intn(len(ccF64Boundary))]
 		} else {
 			u = r.U64()
 		}
-		if isNaNBits(u) {
+		if ccIsNaNBits(u) {
 			continue
 		}
 		if finite && u&0x7ff0000000000000 == 0x7ff0000000000000 {
@@ -146,7 +148,7 @@ func genF64(r *core.RNG, finite bool) uint64 {
 		return u
 	}
 }
-func genBytes(r *core.RNG, n int) []byte {
+func ccGenBytes(r *core.RNG, n int) []byte {
 	switch r.Intn(8) {
 	case 0:
 		return make([]byte, n)
@@ -155,10 +157,10 @@ func genBytes(r *core.RNG, n int) []byte {
 	}
 	return r.Bytes(n)
 }
-func genLoc(r *core.RNG, n int) string {
+func ccGenLoc(r *core.RNG, n int) string {
 	b := make([]byte, n)
 	if n > 64 { // long locations: a repeated 8-byte word with a few changed bytes (the cases file stays small)
-		w := genLoc(r, 8)
+		w := ccGenLoc(r, 8)
 		for i := range b {
 			b[i] = w[i%8]
 		}
@@ -180,27 +182,27 @@ func genLoc(r *core.RNG, n int) string {
 
 // ---------------------------------------------------------------- Gallina literals
 
-func gReport(er glow.EquipmentReport) string {
-	return fmt.Sprintf("(Build_report %d %d %d %s)", er.ShortID, er.Timeslot, er.PowerOutput, hexLit(er.Signature[:]))
+func ccGReport(er glow.EquipmentReport) string {
+	return fmt.Sprintf("(Build_report %d %d %d %s)", er.ShortID, er.Timeslot, er.PowerOutput, ccHexLit(er.Signature[:]))
 }
-func gAuth(ea glow.EquipmentAuthorization) string {
+func ccGAuth(ea glow.EquipmentAuthorization) string {
 	return fmt.Sprintf("(Build_auth %d %s %d %d %d %d %d %d %d %s)",
-		ea.ShortID, hexLit(ea.PublicKey[:]), math.Float64bits(ea.Latitude), math.Float64bits(ea.Longitude), ea.Capacity, ea.Debt, ea.Expiration, ea.Initialization, ea.ProtocolFee, hexLit(ea.Signature[:]))
+		ea.ShortID, ccHexLit(ea.PublicKey[:]), math.Float64bits(ea.Latitude), math.Float64bits(ea.Longitude), ea.Capacity, ea.Debt, ea.Expiration, ea.Initialization, ea.ProtocolFee, ccHexLit(ea.Signature[:]))
 }
-func gAServer(as server.AuthorizedServer) string {
-	return core.Tuple(hexLit(as.PublicKey[:]), core.Bool(as.Banned), hexLit([]byte(as.Location)), core.ZU(uint64(as.HttpPort)), core.ZU(uint64(as.TcpPort)), core.ZU(uint64(as.UdpPort)), hexLit(as.GCAAuthorization[:]))
+func ccGAServer(as server.AuthorizedServer) string {
+	return core.Tuple(ccHexLit(as.PublicKey[:]), core.Bool(as.Banned), ccHexLit([]byte(as.Location)), core.ZU(uint64(as.HttpPort)), core.ZU(uint64(as.TcpPort)), core.ZU(uint64(as.UdpPort)), ccHexLit(as.GCAAuthorization[:]))
 }
-func gEntry(k glow.PublicKey, s client.GCAServer) string {
-	return core.Tuple(hexLit(k[:]), core.Bool(s.Banned), hexLit([]byte(s.Location)), core.ZU(uint64(s.HttpPort)), core.ZU(uint64(s.TcpPort)), core.ZU(uint64(s.UdpPort)))
+func ccGEntry(k glow.PublicKey, s client.GCAServer) string {
+	return core.Tuple(ccHexLit(k[:]), core.Bool(s.Banned), ccHexLit([]byte(s.Location)), core.ZU(uint64(s.HttpPort)), core.ZU(uint64(s.TcpPort)), core.ZU(uint64(s.UdpPort)))
 }
 
-type sparse struct {
+type ccSparse struct {
 	def uint64
 	idx []int
 	val []uint64
 }
 
-func (s sparse) expand() (out [2016]uint64) {
+func (s ccSparse) expand() (out [2016]uint64) {
 	for i := range out {
 		out[i] = s.def
 	}
@@ -214,7 +216,7 @@ func (s sparse) expand() (out [2016]uint64) {
 	}
 	return
 }
-func (s sparse) gallina() string {
+func (s ccSparse) gallina() string {
 	items := []string{}
 	for k, i := range s.idx {
 		items = append(items, core.Pair(core.Z(int64(i)), core.ZU(s.val[k])))
@@ -222,19 +224,19 @@ func (s sparse) gallina() string {
 	return core.Pair(core.ZU(s.def), core.List(items))
 }
 
-type cdev struct {
+type ccCdev struct {
 	key      glow.PublicKey
-	pow, imp sparse
+	pow, imp ccSparse
 }
 
-func genSparse(r *core.RNG, float bool) sparse {
+func ccGenSparse(r *core.RNG, float bool) ccSparse {
 	g := func() uint64 {
 		if float {
-			return genF64(r, false)
+			return ccGenF64(r, false)
 		}
-		return genU64(r)
+		return ccGenU64(r)
 	}
-	s := sparse{def: g()}
+	s := ccSparse{def: g()}
 	n := r.Intn(7)
 	cand := []int{0, 1, 2014, 2015, 1007, 1008}
 	for i := 0; i < n; i++ {
@@ -247,7 +249,7 @@ func genSparse(r *core.RNG, float bool) sparse {
 	}
 	return s
 }
-func (d cdev) real() server.DeviceStats {
+func (d ccCdev) real() server.DeviceStats {
 	var ds server.DeviceStats
 	ds.PublicKey = d.key
 	ds.PowerOutputs = d.pow.expand()
@@ -257,28 +259,28 @@ func (d cdev) real() server.DeviceStats {
 	}
 	return ds
 }
-func (d cdev) gallina() string {
-	return core.Tuple(hexLit(d.key[:]), d.pow.gallina(), d.imp.gallina())
+func (d ccCdev) gallina() string {
+	return core.Tuple(ccHexLit(d.key[:]), d.pow.gallina(), d.imp.gallina())
 }
 
 // position-weighted checksum, as CodecRun.wsum
-func wsum(xs []uint64) uint64 {
+func ccWsum(xs []uint64) uint64 {
 	var acc uint64
 	for i, x := range xs {
 		acc += uint64(i+1) * x
 	}
 	return acc
 }
-func obsOfStats(ads server.AllDeviceStats, consumed int) string {
+func ccObsOfStats(ads server.AllDeviceStats, consumed int) string {
 	ds := []string{}
 	for _, d := range ads.Devices {
 		im := make([]uint64, 2016)
 		for i := range im {
 			im[i] = math.Float64bits(d.ImpactRates[i])
 		}
-		ds = append(ds, core.Tuple(hexLit(d.PublicKey[:]), core.ZU(wsum(d.PowerOutputs[:])), core.ZU(wsum(im))))
+		ds = append(ds, core.Tuple(ccHexLit(d.PublicKey[:]), core.ZU(ccWsum(d.PowerOutputs[:])), core.ZU(ccWsum(im))))
 	}
-	return fmt.Sprintf("(OOk %d %d %s %s)", consumed, ads.TimeslotOffset, hexLit(ads.Signature[:]), core.List(ds))
+	return fmt.Sprintf("(OOk %d %d %s %s)", consumed, ads.TimeslotOffset, ccHexLit(ads.Signature[:]), core.List(ds))
 }
 
 // ---------------------------------------------------------------- the suite
@@ -314,11 +316,11 @@ func (c *codecRun) flush(name string) error {
 	return err
 }
 
-// hexLit renders bytes for the model (CodecRun.v): short strings as (hb ".."), long
+// ccHexLit renders bytes for the model (CodecRun.v): ccShort strings as (hb ".."), long
 // ones run-length encoded as (rl [L ".."; R n ".."; ..]) where R n h is the 8-byte
 // word h repeated n times.  Coq needs ~50 us per literal byte, so 32 KB device records
 // must not be written out in full.
-func hexLit(b []byte) string {
+func ccHexLit(b []byte) string {
 	if len(b) <= 96 {
 		return `(hb "` + hex.EncodeToString(b) + `")`
 	}
@@ -369,12 +371,12 @@ func hexLit(b []byte) string {
 		}
 	}
 	if !bytes.Equal(back, b) {
-		panic("hexLit: run-length encoding does not reproduce the input")
+		panic("ccHexLit: run-length encoding does not reproduce the input")
 	}
 	return "(rl [" + strings.Join(parts, "; ") + "])"
 }
 
-func short(b []byte) string {
+func ccShort(b []byte) string {
 	if len(b) > 96 {
 		return hex.EncodeToString(b[:96]) + fmt.Sprintf("...(%d bytes)", len(b))
 	}
@@ -385,16 +387,16 @@ func short(b []byte) string {
 // structure's name must be the ASCII prefix
 func (c *codecRun) noteSigning(typ, prefix string, sb []byte, signedFields string) {
 	if !bytes.HasPrefix(sb, []byte(prefix)) {
-		c.res.Fail("signing bytes of "+typ+" do not start with the structure's name", "signing-prefix:"+typ, map[string]interface{}{"type": typ, "signing_bytes": short(sb), "expected_prefix": prefix})
+		c.res.Fail("signing bytes of "+typ+" do not start with the structure's name", "signing-prefix:"+typ, map[string]interface{}{"type": typ, "signing_bytes": ccShort(sb), "expected_prefix": prefix})
 	}
 	id := typ + "|" + signedFields
 	if prev, ok := c.sbSeen[string(sb)]; ok && prev != id {
-		c.res.Fail("two different signed values share their signing bytes", "signing-shared:"+typ, map[string]interface{}{"a": prev, "b": id, "signing_bytes": short(sb)})
+		c.res.Fail("two different signed values share their signing bytes", "signing-shared:"+typ, map[string]interface{}{"a": prev, "b": id, "signing_bytes": ccShort(sb)})
 	}
 	c.sbSeen[string(sb)] = id
 }
 
-func seqBytes(from, n int) []byte {
+func ccSeqBytes(from, n int) []byte {
 	b := make([]byte, n)
 	for i := range b {
 		b[i] = byte(from + i)
@@ -409,12 +411,21 @@ func codecSuite(seed uint64, tier, outDir string) (*core.Result, error) {
 	if tier == "thorough" {
 		scale = 20
 	}
-	c.golden()
-	c.reports(40 * scale)
-	c.auths(30 * scale)
-	c.registrations(10 * scale)
-	c.aservers(20 * scale)
-	c.migrations(8 * scale)
+	// a panic of the real codec on one of these inputs is a finding, not a crash of the harness
+	phase := func(name string, f func()) {
+		defer func() {
+			if r := recover(); r != nil {
+				res.Fail(fmt.Sprintf("the real codec panicked in phase %s: %v", name, r), "codec-panic:"+name, map[string]interface{}{"phase": name, "panic": fmt.Sprint(r)})
+			}
+		}()
+		f()
+	}
+	phase("known-answer vectors", c.golden)
+	phase("report", func() { c.reports(40 * scale) })
+	phase("authorization", func() { c.auths(30 * scale) })
+	phase("registration", func() { c.registrations(10 * scale) })
+	phase("authorized server", func() { c.aservers(20 * scale) })
+	phase("migration", func() { c.migrations(8 * scale) })
 	if err := c.flush("cases_codec_fixed"); err != nil {
 		return nil, err
 	}
@@ -424,7 +435,7 @@ func codecSuite(seed uint64, tier, outDir string) (*core.Result, error) {
 	if err := c.stats(scale); err != nil {
 		return nil, err
 	}
-	c.crypto(scale)
+	phase("signatures", func() { c.crypto(scale) })
 	res.Required = append(res.Required,
 		"report.enc", "report.dec.len80", "report.dec.wrong-length", "auth.enc", "auth.dec.len148", "auth.dec.wrong-length", "auth.json",
 		"reg.signing", "aserver.enc.loc<=255", "aserver.enc.loc>255", "migration.enc", "smap.enc", "smap.enc.too-long", "smap.dec.ok", "smap.dec.refused",
@@ -444,7 +455,7 @@ func (c *codecRun) golden() {
 		c.res.Count("golden")
 		c.res.Evaluations++
 		if !bytes.Equal(got, want) {
-			c.res.Fail("encoding differs from the documented layout: "+name, "golden:"+name, map[string]interface{}{"structure": name, "got": short(got), "documented": short(want)})
+			c.res.Fail("encoding differs from the documented layout: "+name, "golden:"+name, map[string]interface{}{"structure": name, "got": ccShort(got), "documented": ccShort(want)})
 		}
 	}
 	le32 := func(b []byte) uint32 { return binary.LittleEndian.Uint32(b) }
@@ -452,18 +463,18 @@ func (c *codecRun) golden() {
 	le16 := func(b []byte) uint16 { return binary.LittleEndian.Uint16(b) }
 
 	// report: 80 bytes 01..50
-	w := seqBytes(1, 80)
+	w := ccSeqBytes(1, 80)
 	var er glow.EquipmentReport
 	er.ShortID, er.Timeslot, er.PowerOutput = le32(w[0:]), le32(w[4:]), le64(w[8:])
 	copy(er.Signature[:], w[16:])
 	check("EquipmentReport.Serialize", er.Serialize(), w)
 	check("EquipmentReport.SigningBytes", er.SigningBytes(), append([]byte("EquipmentReport"), w[:16]...))
 	if d, err := glow.DeserializeReport(w); err != nil || d != er {
-		c.res.Fail("decoding of the documented layout differs: EquipmentReport", "golden:DeserializeReport", map[string]interface{}{"input": short(w)})
+		c.res.Fail("decoding of the documented layout differs: EquipmentReport", "golden:DeserializeReport", map[string]interface{}{"input": ccShort(w)})
 	}
 
 	// authorization: 148 bytes 01..94
-	w = seqBytes(1, 148)
+	w = ccSeqBytes(1, 148)
 	var ea glow.EquipmentAuthorization
 	ea.ShortID = le32(w[0:])
 	copy(ea.PublicKey[:], w[4:36])
@@ -473,16 +484,16 @@ func (c *codecRun) golden() {
 	check("EquipmentAuthorization.Serialize", ea.Serialize(), w)
 	check("EquipmentAuthorization.SigningBytes", ea.SigningBytes(), append([]byte("EquipmentAuthorization"), w[:84]...))
 	if d, err := glow.DeserializeEquipmentAuthorization(w); err != nil || !bytes.Equal(d.Serialize(), w) || d.ShortID != ea.ShortID || d.ProtocolFee != ea.ProtocolFee || d.PublicKey != ea.PublicKey {
-		c.res.Fail("decoding of the documented layout differs: EquipmentAuthorization", "golden:DeserializeEquipmentAuthorization", map[string]interface{}{"input": short(w)})
+		c.res.Fail("decoding of the documented layout differs: EquipmentAuthorization", "golden:DeserializeEquipmentAuthorization", map[string]interface{}{"input": ccShort(w)})
 	}
 
 	// registration
 	var gr server.GCARegistration
-	copy(gr.GCAKey[:], seqBytes(1, 32))
-	check("GCARegistration.SigningBytes", gr.SigningBytes(), append([]byte("GCARegistration"), seqBytes(1, 32)...))
+	copy(gr.GCAKey[:], ccSeqBytes(1, 32))
+	check("GCARegistration.SigningBytes", gr.SigningBytes(), append([]byte("GCARegistration"), ccSeqBytes(1, 32)...))
 
 	// authorized server: key 01..20, banned 01, len 02, "#$" (23 24), ports 25..2a, sig 2b..6a
-	w = seqBytes(1, 106)
+	w = ccSeqBytes(1, 106)
 	w[32], w[33] = 1, 2
 	var as server.AuthorizedServer
 	copy(as.PublicKey[:], w[0:32])
@@ -493,13 +504,13 @@ func (c *codecRun) golden() {
 	check("AuthorizedServer.SigningBytes", as.SigningBytes(), append([]byte("AuthorizedServer"), w[:42]...))
 
 	// migration: equipment, new GCA, new id, one server (as above), signature
-	h := seqBytes(0x81, 68)
+	h := ccSeqBytes(0x81, 68)
 	var em server.EquipmentMigration
 	copy(em.Equipment[:], h[0:32])
 	copy(em.NewGCA[:], h[32:64])
 	em.NewShortID = le32(h[64:])
 	em.NewServers = []server.AuthorizedServer{as}
-	sg := seqBytes(0xc1, 64)
+	sg := ccSeqBytes(0xc1, 64)
 	copy(em.Signature[:], sg)
 	body := append(append([]byte{}, h...), w...)
 	check("EquipmentMigration.Serialize", em.Serialize(), append(append([]byte{}, body...), sg...))
@@ -508,14 +519,14 @@ func (c *codecRun) golden() {
 	// weekly statistics without devices: count(4) tso(4) signature(64)
 	var ads server.AllDeviceStats
 	ads.TimeslotOffset = 0x08070605
-	copy(ads.Signature[:], seqBytes(9, 64))
-	w = append([]byte{0, 0, 0, 0}, seqBytes(5, 68)...)
+	copy(ads.Signature[:], ccSeqBytes(9, 64))
+	w = append([]byte{0, 0, 0, 0}, ccSeqBytes(5, 68)...)
 	check("AllDeviceStats.Serialize", ads.Serialize(), w)
 	check("AllDeviceStats.SigningBytes", ads.SigningBytes(), append([]byte("AllDeviceStats"), w[:8]...))
 	// one device: count 1, key, power 2016 x u64, impact 2016 x float bits, tso
 	var ds server.DeviceStats
-	copy(ds.PublicKey[:], seqBytes(1, 32))
-	dw := append([]byte{1, 0, 0, 0}, seqBytes(1, 32)...)
+	copy(ds.PublicKey[:], ccSeqBytes(1, 32))
+	dw := append([]byte{1, 0, 0, 0}, ccSeqBytes(1, 32)...)
 	for i := 0; i < 2016; i++ {
 		ds.PowerOutputs[i] = uint64(i) + 0x0807060504030200
 		dw = binary.LittleEndian.AppendUint64(dw, ds.PowerOutputs[i])
@@ -526,12 +537,12 @@ func (c *codecRun) golden() {
 		dw = binary.LittleEndian.AppendUint64(dw, bits)
 	}
 	ads.Devices = []server.DeviceStats{ds}
-	dw = append(dw, seqBytes(5, 68)...)
+	dw = append(dw, ccSeqBytes(5, 68)...)
 	check("AllDeviceStats.Serialize/1", ads.Serialize(), dw)
 	check("AllDeviceStats.SigningBytes/1", ads.SigningBytes(), append([]byte("AllDeviceStats"), dw[:len(dw)-64]...))
 
 	// client server map, one entry: key, banned 01, len 02 00, "#$"..., ports
-	w = seqBytes(1, 43)
+	w = ccSeqBytes(1, 43)
 	w[32], w[33], w[34] = 1, 2, 0
 	var k glow.PublicKey
 	copy(k[:], w[0:32])
@@ -549,8 +560,8 @@ func (c *codecRun) reports(n int) {
 	r := c.rng.Fork()
 	for i := 0; i < n; i++ {
 		var er glow.EquipmentReport
-		er.ShortID, er.Timeslot, er.PowerOutput = genU32(r), genU32(r), genU64(r)
-		copy(er.Signature[:], genBytes(r, 64))
+		er.ShortID, er.Timeslot, er.PowerOutput = ccGenU32(r), ccGenU32(r), ccGenU64(r)
+		copy(er.Signature[:], ccGenBytes(r, 64))
 		if i == 0 {
 			er = glow.EquipmentReport{}
 		}
@@ -559,10 +570,10 @@ func (c *codecRun) reports(n int) {
 		}
 		ser, sb := er.Serialize(), er.SigningBytes()
 		c.add("report.enc", map[string]interface{}{"report": fmt.Sprintf("%d/%d/%d", er.ShortID, er.Timeslot, er.PowerOutput)}, hex.EncodeToString(ser), true,
-			fmt.Sprintf("CReport %s %s %s", gReport(er), hexLit(ser), hexLit(sb)))
+			fmt.Sprintf("CReport %s %s %s", ccGReport(er), ccHexLit(ser), ccHexLit(sb)))
 		c.noteSigning("EquipmentReport", "EquipmentReport", sb, fmt.Sprintf("%d/%d/%d", er.ShortID, er.Timeslot, er.PowerOutput))
 		if d, err := glow.DeserializeReport(ser); err != nil || d != er {
-			c.res.Fail("report does not decode back to the encoded value", "report-roundtrip", map[string]interface{}{"report": gReport(er), "bytes": short(ser)})
+			c.res.Fail("report does not decode back to the encoded value", "report-roundtrip", map[string]interface{}{"report": ccGReport(er), "bytes": ccShort(ser)})
 		}
 		// decoder on lengths 78..82 (real encoding truncated / extended, or random bytes)
 		for L := 78; L <= 82; L++ {
@@ -576,49 +587,49 @@ func (c *codecRun) reports(n int) {
 			d, err := glow.DeserializeReport(in)
 			obs, class := "None", "report.dec.wrong-length"
 			if err == nil {
-				obs = core.Some(gReport(d))
+				obs = core.Some(ccGReport(d))
 			}
 			if L == 80 {
 				class = "report.dec.len80"
 				if err != nil {
-					c.res.Fail("80-byte input refused by DeserializeReport", "report-len80-refused", map[string]interface{}{"input": short(in)})
+					c.res.Fail("80-byte input refused by DeserializeReport", "report-len80-refused", map[string]interface{}{"input": ccShort(in)})
 				} else if !bytes.Equal(d.Serialize(), in) {
-					c.res.Fail("decoded report does not encode back to the input", "report-dec-enc", map[string]interface{}{"input": short(in)})
+					c.res.Fail("decoded report does not encode back to the input", "report-dec-enc", map[string]interface{}{"input": ccShort(in)})
 				}
 			} else if err == nil {
-				c.res.Fail("input of the wrong length accepted by DeserializeReport", "report-wrong-length-accepted", map[string]interface{}{"input": short(in), "length": L})
+				c.res.Fail("input of the wrong length accepted by DeserializeReport", "report-wrong-length-accepted", map[string]interface{}{"input": ccShort(in), "length": L})
 			}
-			c.add(class, map[string]interface{}{"len": L}, hex.EncodeToString(in), err == nil, fmt.Sprintf("CReportDec %s %s", hexLit(in), obs))
+			c.add(class, map[string]interface{}{"len": L}, hex.EncodeToString(in), err == nil, fmt.Sprintf("CReportDec %s %s", ccHexLit(in), obs))
 		}
 	}
 }
 
 // ---------------------------------------------------------------- authorization
 
-func genAuth(r *core.RNG, finite bool) glow.EquipmentAuthorization {
+func ccGenAuth(r *core.RNG, finite bool) glow.EquipmentAuthorization {
 	var ea glow.EquipmentAuthorization
-	ea.ShortID = genU32(r)
-	copy(ea.PublicKey[:], genBytes(r, 32))
-	ea.Latitude, ea.Longitude = math.Float64frombits(genF64(r, finite)), math.Float64frombits(genF64(r, finite))
-	ea.Capacity, ea.Debt, ea.Expiration, ea.Initialization, ea.ProtocolFee = genU64(r), genU64(r), genU32(r), genU32(r), genU64(r)
-	copy(ea.Signature[:], genBytes(r, 64))
+	ea.ShortID = ccGenU32(r)
+	copy(ea.PublicKey[:], ccGenBytes(r, 32))
+	ea.Latitude, ea.Longitude = math.Float64frombits(ccGenF64(r, finite)), math.Float64frombits(ccGenF64(r, finite))
+	ea.Capacity, ea.Debt, ea.Expiration, ea.Initialization, ea.ProtocolFee = ccGenU64(r), ccGenU64(r), ccGenU32(r), ccGenU32(r), ccGenU64(r)
+	copy(ea.Signature[:], ccGenBytes(r, 64))
 	return ea
 }
 
 func (c *codecRun) auths(n int) {
 	r := c.rng.Fork()
 	for i := 0; i < n; i++ {
-		ea := genAuth(r, false)
-		if i < len(f64Boundary) { // every boundary float at least once, in both positions
-			ea.Latitude = math.Float64frombits(f64Boundary[i])
-			ea.Longitude = math.Float64frombits(f64Boundary[len(f64Boundary)-1-i])
+		ea := ccGenAuth(r, false)
+		if i < len(ccF64Boundary) { // every boundary float at least once, in both positions
+			ea.Latitude = math.Float64frombits(ccF64Boundary[i])
+			ea.Longitude = math.Float64frombits(ccF64Boundary[len(ccF64Boundary)-1-i])
 		}
 		ser, sb := ea.Serialize(), ea.SigningBytes()
 		c.add("auth.enc", map[string]interface{}{"auth": ea.ShortID}, hex.EncodeToString(ser), true,
-			fmt.Sprintf("CAuth %s %s %s", gAuth(ea), hexLit(ser), hexLit(sb)))
+			fmt.Sprintf("CAuth %s %s %s", ccGAuth(ea), ccHexLit(ser), ccHexLit(sb)))
 		c.noteSigning("EquipmentAuthorization", "EquipmentAuthorization", sb, hex.EncodeToString(ser[:84]))
-		if d, err := glow.DeserializeEquipmentAuthorization(ser); err != nil || !bytes.Equal(d.Serialize(), ser) || gAuth(d) != gAuth(ea) {
-			c.res.Fail("authorization does not decode back to the encoded value", "auth-roundtrip", map[string]interface{}{"auth": gAuth(ea), "bytes": short(ser)})
+		if d, err := glow.DeserializeEquipmentAuthorization(ser); err != nil || !bytes.Equal(d.Serialize(), ser) || ccGAuth(d) != ccGAuth(ea) {
+			c.res.Fail("authorization does not decode back to the encoded value", "auth-roundtrip", map[string]interface{}{"auth": ccGAuth(ea), "bytes": ccShort(ser)})
 		}
 		for L := 146; L <= 150; L++ {
 			if i >= 10 && L != 148 && !r.Chance(15) {
@@ -628,31 +639,31 @@ func (c *codecRun) auths(n int) {
 			if r.Chance(30) {
 				in = r.Bytes(L)
 				if L >= 52 { // keep the floats NaN-free
-					binary.LittleEndian.PutUint64(in[36:], genF64(r, false))
-					binary.LittleEndian.PutUint64(in[44:], genF64(r, false))
+					binary.LittleEndian.PutUint64(in[36:], ccGenF64(r, false))
+					binary.LittleEndian.PutUint64(in[44:], ccGenF64(r, false))
 				}
 			}
 			d, err := glow.DeserializeEquipmentAuthorization(in)
 			obs, class := "None", "auth.dec.wrong-length"
 			if err == nil {
-				obs = core.Some(gAuth(d))
+				obs = core.Some(ccGAuth(d))
 			}
 			if L == 148 {
 				class = "auth.dec.len148"
 				if err != nil {
-					c.res.Fail("148-byte input refused by DeserializeEquipmentAuthorization", "auth-len148-refused", map[string]interface{}{"input": short(in)})
+					c.res.Fail("148-byte input refused by DeserializeEquipmentAuthorization", "auth-len148-refused", map[string]interface{}{"input": ccShort(in)})
 				} else if !bytes.Equal(d.Serialize(), in) {
-					c.res.Fail("decoded authorization does not encode back to the input", "auth-dec-enc", map[string]interface{}{"input": short(in)})
+					c.res.Fail("decoded authorization does not encode back to the input", "auth-dec-enc", map[string]interface{}{"input": ccShort(in)})
 				}
 			} else if err == nil {
-				c.res.Fail("input of the wrong length accepted by DeserializeEquipmentAuthorization", "auth-wrong-length-accepted", map[string]interface{}{"input": short(in), "length": L})
+				c.res.Fail("input of the wrong length accepted by DeserializeEquipmentAuthorization", "auth-wrong-length-accepted", map[string]interface{}{"input": ccShort(in), "length": L})
 			}
-			c.add(class, map[string]interface{}{"len": L}, hex.EncodeToString(in), err == nil, fmt.Sprintf("CAuthDec %s %s", hexLit(in), obs))
+			c.add(class, map[string]interface{}{"len": L}, hex.EncodeToString(in), err == nil, fmt.Sprintf("CAuthDec %s %s", ccHexLit(in), obs))
 		}
 		// JSON transport (encoding/json, as the HTTP API does); finite floats only
-		ej := genAuth(r, true)
-		if i < len(f64Boundary) && f64Boundary[i]&0x7ff0000000000000 != 0x7ff0000000000000 {
-			ej.Latitude = math.Float64frombits(f64Boundary[i])
+		ej := ccGenAuth(r, true)
+		if i < len(ccF64Boundary) && ccF64Boundary[i]&0x7ff0000000000000 != 0x7ff0000000000000 {
+			ej.Latitude = math.Float64frombits(ccF64Boundary[i])
 		}
 		c.res.Count("auth.json")
 		c.res.Evaluations++
@@ -662,7 +673,7 @@ func (c *codecRun) auths(n int) {
 			err = json.Unmarshal(js, &back)
 		}
 		if err != nil || !bytes.Equal(back.Serialize(), ej.Serialize()) {
-			c.res.Fail("JSON transport of an authorization does not preserve it exactly", "auth-json", map[string]interface{}{"auth": gAuth(ej), "json": string(js), "error": fmt.Sprint(err)})
+			c.res.Fail("JSON transport of an authorization does not preserve it exactly", "auth-json", map[string]interface{}{"auth": ccGAuth(ej), "json": string(js), "error": fmt.Sprint(err)})
 		}
 	}
 }
@@ -673,39 +684,39 @@ func (c *codecRun) registrations(n int) {
 	r := c.rng.Fork()
 	for i := 0; i < n; i++ {
 		var gr server.GCARegistration
-		copy(gr.GCAKey[:], genBytes(r, 32))
-		copy(gr.Signature[:], genBytes(r, 64))
+		copy(gr.GCAKey[:], ccGenBytes(r, 32))
+		copy(gr.Signature[:], ccGenBytes(r, 64))
 		sb := gr.SigningBytes()
 		c.add("reg.signing", map[string]interface{}{"key": hex.EncodeToString(gr.GCAKey[:])}, hex.EncodeToString(sb), true,
-			fmt.Sprintf("CReg %s %s", hexLit(gr.GCAKey[:]), hexLit(sb)))
+			fmt.Sprintf("CReg %s %s", ccHexLit(gr.GCAKey[:]), ccHexLit(sb)))
 		c.noteSigning("GCARegistration", "GCARegistration", sb, hex.EncodeToString(gr.GCAKey[:]))
 	}
 }
 
 // ---------------------------------------------------------------- authorized server, migration
 
-var aserverLocLens = []int{0, 1, 2, 17, 254, 255, 256, 257, 300, 511, 512}
+var ccAserverLocLens = []int{0, 1, 2, 17, 254, 255, 256, 257, 300, 511, 512}
 
-func genAServer(r *core.RNG, maxLoc int) server.AuthorizedServer {
+func ccGenAServer(r *core.RNG, maxLoc int) server.AuthorizedServer {
 	var as server.AuthorizedServer
-	copy(as.PublicKey[:], genBytes(r, 32))
+	copy(as.PublicKey[:], ccGenBytes(r, 32))
 	as.Banned = r.Bool()
-	L := aserverLocLens[r.Intn(len(aserverLocLens))]
+	L := ccAserverLocLens[r.Intn(len(ccAserverLocLens))]
 	if L > maxLoc {
 		L = r.Intn(maxLoc + 1)
 	}
-	as.Location = genLoc(r, L)
-	as.HttpPort, as.TcpPort, as.UdpPort = genU16(r), genU16(r), genU16(r)
-	copy(as.GCAAuthorization[:], genBytes(r, 64))
+	as.Location = ccGenLoc(r, L)
+	as.HttpPort, as.TcpPort, as.UdpPort = ccGenU16(r), ccGenU16(r), ccGenU16(r)
+	copy(as.GCAAuthorization[:], ccGenBytes(r, 64))
 	return as
 }
 
 func (c *codecRun) aservers(n int) {
 	r := c.rng.Fork()
 	for i := 0; i < n; i++ {
-		as := genAServer(r, 600)
-		if i < len(aserverLocLens) {
-			as.Location = genLoc(r, aserverLocLens[i])
+		as := ccGenAServer(r, 600)
+		if i < len(ccAserverLocLens) {
+			as.Location = ccGenLoc(r, ccAserverLocLens[i])
 		}
 		ser, sb := as.Serialize(), as.SigningBytes()
 		class := "aserver.enc.loc<=255"
@@ -715,7 +726,7 @@ func (c *codecRun) aservers(n int) {
 			c.noteSigning("AuthorizedServer", "AuthorizedServer", sb, hex.EncodeToString(ser[:len(ser)-64]))
 		}
 		c.add(class, map[string]interface{}{"loc_len": len(as.Location)}, hex.EncodeToString(ser), true,
-			fmt.Sprintf("CAServer %s %s %s", gAServer(as), hexLit(ser), hexLit(sb)))
+			fmt.Sprintf("CAServer %s %s %s", ccGAServer(as), ccHexLit(ser), ccHexLit(sb)))
 	}
 }
 
@@ -723,27 +734,27 @@ func (c *codecRun) migrations(n int) {
 	r := c.rng.Fork()
 	for i := 0; i < n; i++ {
 		var em server.EquipmentMigration
-		copy(em.Equipment[:], genBytes(r, 32))
-		copy(em.NewGCA[:], genBytes(r, 32))
-		em.NewShortID = genU32(r)
+		copy(em.Equipment[:], ccGenBytes(r, 32))
+		copy(em.NewGCA[:], ccGenBytes(r, 32))
+		em.NewShortID = ccGenU32(r)
 		k := i % 4
 		srv := []string{}
 		for j := 0; j < k; j++ {
-			as := genAServer(r, 255)
+			as := ccGenAServer(r, 255)
 			em.NewServers = append(em.NewServers, as)
-			srv = append(srv, gAServer(as))
+			srv = append(srv, ccGAServer(as))
 		}
-		copy(em.Signature[:], genBytes(r, 64))
+		copy(em.Signature[:], ccGenBytes(r, 64))
 		ser, sb := em.Serialize(), em.SigningBytes()
 		c.add("migration.enc", map[string]interface{}{"servers": k}, hex.EncodeToString(ser), true,
-			fmt.Sprintf("CMigration %s %s %d %s %s %s %s", hexLit(em.Equipment[:]), hexLit(em.NewGCA[:]), em.NewShortID, core.List(srv), hexLit(em.Signature[:]), hexLit(ser), hexLit(sb)))
+			fmt.Sprintf("CMigration %s %s %d %s %s %s %s", ccHexLit(em.Equipment[:]), ccHexLit(em.NewGCA[:]), em.NewShortID, core.List(srv), ccHexLit(em.Signature[:]), ccHexLit(ser), ccHexLit(sb)))
 		c.noteSigning("EquipmentMigration", "EquipmentMigration", sb, hex.EncodeToString(ser[:len(ser)-64]))
 	}
 }
 
 // ---------------------------------------------------------------- client server map
 
-func sortedEntries(m map[glow.PublicKey]client.GCAServer) []string {
+func ccSortedEntries(m map[glow.PublicKey]client.GCAServer) []string {
 	ks := []string{}
 	for k := range m {
 		ks = append(ks, string(k[:]))
@@ -753,12 +764,12 @@ func sortedEntries(m map[glow.PublicKey]client.GCAServer) []string {
 	for _, s := range ks {
 		var k glow.PublicKey
 		copy(k[:], s)
-		out = append(out, gEntry(k, m[k]))
+		out = append(out, ccGEntry(k, m[k]))
 	}
 	return out
 }
 
-func mapsEqual(a, b map[glow.PublicKey]client.GCAServer) bool {
+func ccMapsEqual(a, b map[glow.PublicKey]client.GCAServer) bool {
 	if len(a) != len(b) {
 		return false
 	}
@@ -774,15 +785,15 @@ func (c *codecRun) smapDec(in []byte, mustOK, mustFail bool, what string) {
 	m, err := client.UntrustedDeserializeGCAServerMap(in)
 	obs, class := "None", "smap.dec.refused"
 	if err == nil {
-		obs, class = core.Some(core.List(sortedEntries(m))), "smap.dec.ok"
+		obs, class = core.Some(core.List(ccSortedEntries(m))), "smap.dec.ok"
 	}
 	if mustOK && err != nil {
-		c.res.Fail("encoded server map refused by the decoder", "smap-refused", map[string]interface{}{"input": short(in), "what": what})
+		c.res.Fail("encoded server map refused by the decoder", "smap-refused", map[string]interface{}{"input": ccShort(in), "what": what})
 	}
 	if mustFail && err == nil {
-		c.res.Fail("truncated / over-long server map accepted by the decoder", "smap-wrong-length-accepted", map[string]interface{}{"input": short(in), "what": what})
+		c.res.Fail("truncated / over-long server map accepted by the decoder", "smap-wrong-length-accepted", map[string]interface{}{"input": ccShort(in), "what": what})
 	}
-	c.add(class, map[string]interface{}{"len": len(in), "what": what}, hex.EncodeToString(in), err == nil, fmt.Sprintf("CSMapDec %s %s", hexLit(in), obs))
+	c.add(class, map[string]interface{}{"len": len(in), "what": what}, hex.EncodeToString(in), err == nil, fmt.Sprintf("CSMapDec %s %s", ccHexLit(in), obs))
 }
 
 func (c *codecRun) serverMaps(scale int) error {
@@ -804,7 +815,7 @@ func (c *codecRun) serverMaps(scale int) error {
 		for _, L := range p {
 			var k glow.PublicKey
 			copy(k[:], r.Bytes(32))
-			m[k] = client.GCAServer{Banned: r.Bool(), Location: genLoc(r, L), HttpPort: genU16(r), TcpPort: genU16(r), UdpPort: genU16(r)}
+			m[k] = client.GCAServer{Banned: r.Bool(), Location: ccGenLoc(r, L), HttpPort: ccGenU16(r), TcpPort: ccGenU16(r), UdpPort: ccGenU16(r)}
 			size[k] = 41 + L
 			tooLong = tooLong || L > 65535
 			if L > maxLoc {
@@ -821,7 +832,7 @@ func (c *codecRun) serverMaps(scale int) error {
 			if !tooLong {
 				c.res.Fail("server map with locations of at most 65535 bytes refused by the encoder", "smap-enc-refused", map[string]interface{}{"locations": p})
 			}
-			c.add("smap.enc.too-long", map[string]interface{}{"locations": p}, fmt.Sprint(p, pi), false, fmt.Sprintf("CSMapEnc %s None", core.List(sortedEntries(m))))
+			c.add("smap.enc.too-long", map[string]interface{}{"locations": p}, fmt.Sprint(p, pi), false, fmt.Sprintf("CSMapEnc %s None", core.List(ccSortedEntries(m))))
 			continue
 		}
 		// the order in which the map iteration wrote the entries
@@ -840,17 +851,17 @@ func (c *codecRun) serverMaps(scale int) error {
 				okOrder = false
 				break
 			}
-			order = append(order, gEntry(k, m[k]))
+			order = append(order, ccGEntry(k, m[k]))
 			pos += s
 		}
 		if !okOrder || pos != len(enc) || len(order) != len(m) {
-			c.res.Fail("encoded server map is not the concatenation of its entries", "smap-enc-shape", map[string]interface{}{"locations": p, "bytes": short(enc)})
-			order = sortedEntries(m)
+			c.res.Fail("encoded server map is not the concatenation of its entries", "smap-enc-shape", map[string]interface{}{"locations": p, "bytes": ccShort(enc)})
+			order = ccSortedEntries(m)
 		}
-		c.add("smap.enc", map[string]interface{}{"locations": p}, hex.EncodeToString(enc), len(p) > 0, fmt.Sprintf("CSMapEnc %s %s", core.List(order), core.Some(hexLit(enc))))
+		c.add("smap.enc", map[string]interface{}{"locations": p}, hex.EncodeToString(enc), len(p) > 0, fmt.Sprintf("CSMapEnc %s %s", core.List(order), core.Some(ccHexLit(enc))))
 		back, err := client.UntrustedDeserializeGCAServerMap(enc)
-		if err != nil || !mapsEqual(back, m) {
-			c.res.Fail("server map does not decode back to the encoded map", "smap-roundtrip", map[string]interface{}{"locations": p, "bytes": short(enc)})
+		if err != nil || !ccMapsEqual(back, m) {
+			c.res.Fail("server map does not decode back to the encoded map", "smap-roundtrip", map[string]interface{}{"locations": p, "bytes": ccShort(enc)})
 		}
 		c.smapDec(enc, true, false, "exact")
 		if maxLoc <= 1000 && len(enc) > 0 {
@@ -880,7 +891,7 @@ func (c *codecRun) serverMaps(scale int) error {
 
 // ---------------------------------------------------------------- weekly statistics
 
-func realStats(devs []cdev, tso uint32, sig []byte) server.AllDeviceStats {
+func ccRealStats(devs []ccCdev, tso uint32, sig []byte) server.AllDeviceStats {
 	var ads server.AllDeviceStats
 	for _, d := range devs {
 		ads.Devices = append(ads.Devices, d.real())
@@ -891,7 +902,7 @@ func realStats(devs []cdev, tso uint32, sig []byte) server.AllDeviceStats {
 }
 
 // the loop of loadEquipmentHistory over the real stream decoder
-func realStreamAll(data []byte) (string, bool) {
+func ccRealStreamAll(data []byte) (string, bool) {
 	items := []string{}
 	for len(data) > 0 {
 		ads, n, err := server.DeserializeStreamAllDeviceStats(data)
@@ -910,7 +921,7 @@ func realStreamAll(data []byte) (string, bool) {
 func (c *codecRun) stats(scale int) error {
 	r := c.rng.Fork()
 	// device counts of the records of each stream
-	streams := [][]int{{}, {0}, {1, 0}, {2, 1, 0}}
+	streams := [][]int{{}, {0}, {1, 0}, {2, 0, 0}} // quick: the model needs 1.5 s to encode one 32 KB device record
 	if c.tier == "thorough" {
 		for i := 0; i < 16; i++ {
 			k := r.Intn(4)
@@ -920,40 +931,40 @@ func (c *codecRun) stats(scale int) error {
 			}
 			streams = append(streams, s)
 		}
-		streams = append(streams, []int{2, 2, 2}, []int{0, 0, 0}, []int{1}, []int{2})
+		streams = append(streams, []int{2, 1, 0}, []int{2, 2, 2}, []int{0, 0, 0}, []int{1}, []int{2})
 	}
 	for si, plan := range streams {
 		var stream []byte
 		var ends []int
 		var firstRec server.AllDeviceStats
 		for ri, nd := range plan {
-			devs := []cdev{}
+			devs := []ccCdev{}
 			for j := 0; j < nd; j++ {
-				var d cdev
-				copy(d.key[:], genBytes(r, 32))
-				d.pow, d.imp = genSparse(r, false), genSparse(r, true)
+				var d ccCdev
+				copy(d.key[:], ccGenBytes(r, 32))
+				d.pow, d.imp = ccGenSparse(r, false), ccGenSparse(r, true)
 				devs = append(devs, d)
 			}
 			tso := uint32(2016 * r.Intn(1000))
 			if r.Chance(30) {
-				tso = genU32(r)
+				tso = ccGenU32(r)
 			}
-			sig := genBytes(r, 64)
-			ads := realStats(devs, tso, sig)
+			sig := ccGenBytes(r, 64)
+			ads := ccRealStats(devs, tso, sig)
 			if ri == 0 {
 				firstRec = ads
 			}
 			ser, sb := ads.Serialize(), ads.SigningBytes()
 			sbLit := "None"
 			if nd <= 1 {
-				sbLit = core.Some(hexLit(sb))
+				sbLit = core.Some(ccHexLit(sb))
 			}
 			gd := []string{}
 			for _, d := range devs {
 				gd = append(gd, d.gallina())
 			}
 			c.add("stats.enc", map[string]interface{}{"devices": nd, "tso": tso}, hex.EncodeToString(ser), true,
-				fmt.Sprintf("CStats %s %d %s %s %s", core.List(gd), tso, hexLit(sig), hexLit(ser), sbLit))
+				fmt.Sprintf("CStats %s %d %s %s %s", core.List(gd), tso, ccHexLit(sig), ccHexLit(ser), sbLit))
 			c.noteSigning("AllDeviceStats", "AllDeviceStats", sb, hex.EncodeToString(ser[:len(ser)-64]))
 			if want := 4 + nd*32288 + 4 + 64; len(ser) != want {
 				c.res.Fail("serialized statistics record has the wrong length", "stats-length", map[string]interface{}{"devices": nd, "length": len(ser), "documented": want})
@@ -964,15 +975,22 @@ func (c *codecRun) stats(scale int) error {
 		c.res.Count(fmt.Sprintf("stream.records=%d", len(plan)))
 		ext := r.Bytes(3)
 		full := append(append([]byte{}, stream...), ext...)
-		cutset := map[int]bool{0: true, 1: true, 3: true, 4: true, 5: true, 36: true, 71: true, 72: true, 73: true, len(stream): true, len(stream) + 1: true, len(stream) + 3: true}
-		if len(stream) > 0 {
-			cutset[len(stream)-1] = true
-			cutset[len(stream)-64] = true
-			cutset[len(stream)-65] = true
+		cutset := map[int]bool{0: true, 1: true, 3: true, 4: true, 5: true, 36: true, 71: true, 72: true, 73: true, len(stream): true, len(stream) + 3: true}
+		if len(ends) > 0 {
+			cutset[ends[0]-64] = true
+			cutset[ends[0]-65] = true
 		}
-		for _, e := range ends {
+		if c.tier == "thorough" && len(stream) > 0 {
+			cutset[len(stream)-1] = true
+			cutset[len(stream)+1] = true
+			cutset[len(stream)-64] = true
+		}
+		for ei, e := range ends {
 			for _, d := range []int{-1, 0, 1} {
-				cutset[e+d] = true
+				// quick tier: every accepted cut decodes the whole first record again in the model (0.1 s per device)
+				if c.tier == "thorough" || ei == 0 {
+					cutset[e+d] = true
+				}
 			}
 		}
 		if len(plan) > 0 && plan[0] > 0 {
@@ -1005,7 +1023,7 @@ func (c *codecRun) stats(scale int) error {
 				continue
 			}
 			c.res.Count("stream.cut.ok")
-			obsItems = append(obsItems, core.Pair(core.Z(int64(cut)), obsOfStats(ads, n)))
+			obsItems = append(obsItems, core.Pair(core.Z(int64(cut)), ccObsOfStats(ads, n)))
 			if len(plan) == 0 {
 				// random trailing bytes only: whatever they decode to must fit the input
 				if n > cut {
@@ -1019,19 +1037,21 @@ func (c *codecRun) stats(scale int) error {
 				c.res.Fail("stream decoder does not return the first record and its exact length", "stream-roundtrip", map[string]interface{}{"stream_plan": plan, "cut": cut, "consumed": n, "first_record_length": firstLen})
 			}
 		}
-		all, ok := realStreamAll(stream)
+		all, ok := ccRealStreamAll(stream)
 		if !ok {
 			c.res.Fail("a concatenation of encoded records does not decode record by record", "stream-all", map[string]interface{}{"stream_plan": plan})
 		}
 		c.add("stream", map[string]interface{}{"stream_plan": plan, "cuts": len(cuts)}, fmt.Sprint(plan, si, len(stream)), len(plan) > 0,
-			fmt.Sprintf("CStream %s %s %s [%s]", hexLit(stream), hexLit(ext), core.List(obsItems), all))
-		if err := c.flush(fmt.Sprintf("cases_codec_stats_%d", c.files)); err != nil {
-			return err
+			fmt.Sprintf("CStream %s %s %s [%s]", ccHexLit(stream), ccHexLit(ext), core.List(obsItems), all))
+		if c.size > 150000 || (c.tier == "thorough" && si%3 == 2) {
+			if err := c.flush(fmt.Sprintf("cases_codec_stats_%d", c.files)); err != nil {
+				return err
+			}
 		}
 	}
 	// count field larger than what follows (small enough to run in-process), and hostile
-	// counts on short inputs, which run in a child process
-	one := realStats([]cdev{{}}, 2016, make([]byte, 64)).Serialize()
+	// counts on ccShort inputs, which run in a child process
+	one := ccRealStats([]ccCdev{{}}, 2016, make([]byte, 64)).Serialize()
 	for _, cnt := range []uint32{2, 3, 100} {
 		in := append([]byte{}, one...)
 		binary.LittleEndian.PutUint32(in, cnt)
@@ -1043,10 +1063,7 @@ func (c *codecRun) stats(scale int) error {
 			c.res.Fail("stream decoder accepts a record whose device count exceeds the input", "stream-count-accepted", map[string]interface{}{"count": cnt, "length": len(in)})
 		}
 		c.add("stream.count-too-large", map[string]interface{}{"count": cnt}, fmt.Sprint("cnt", cnt), false,
-			fmt.Sprintf("CStream %s [] [%s] []", hexLit(in), core.Pair(core.Z(int64(len(in))), obs)))
-	}
-	if err := c.flush(fmt.Sprintf("cases_codec_stats_%d", c.files)); err != nil {
-		return err
+			fmt.Sprintf("CStream %s [] [%s] []", ccHexLit(in), core.Pair(core.Z(int64(len(in))), obs)))
 	}
 	hostile := [][]byte{
 		{0xff, 0xff, 0xff, 0xff},
@@ -1064,22 +1081,22 @@ func (c *codecRun) stats(scale int) error {
 		}
 	}
 	for _, in := range hostile {
-		class, n, detail := runStreamChild(in)
+		class, n, detail := ccRunStreamChild(in)
 		obs := "OErr"
 		switch class {
 		case "fatal":
 			obs = "OFatal"
 			c.res.Fail("stream decoder is not total: input "+hex.EncodeToString(in[:4])+"... kills the process instead of being refused ("+detail+")", "stream-decoder-fatal",
-				map[string]interface{}{"input_hex": hex.EncodeToString(in), "function": "server.DeserializeStreamAllDeviceStats", "child": detail, "address_space_limit_kb": childLimitKB})
+				map[string]interface{}{"input_hex": hex.EncodeToString(in), "function": "server.DeserializeStreamAllDeviceStats", "child": detail, "address_space_limit_kb": ccChildLimitKB})
 		case "ok":
 			ads, n2, err := server.DeserializeStreamAllDeviceStats(in) // it is safe in-process then
 			if err != nil || n2 != n {
 				return fmt.Errorf("child and in-process decoder disagree")
 			}
-			obs = obsOfStats(ads, n)
+			obs = ccObsOfStats(ads, n)
 		}
 		c.add("stream.hostile-count", map[string]interface{}{"input": hex.EncodeToString(in), "class": class}, hex.EncodeToString(in), class == "ok",
-			fmt.Sprintf("CStream %s [] [%s] []", hexLit(in), core.Pair(core.Z(int64(len(in))), obs)))
+			fmt.Sprintf("CStream %s [] [%s] []", ccHexLit(in), core.Pair(core.Z(int64(len(in))), obs)))
 	}
 	return c.flush(fmt.Sprintf("cases_codec_stats_%d", c.files))
 }
@@ -1096,14 +1113,14 @@ func (c *codecRun) crypto(scale int) {
 	}
 	mk := func() []msg {
 		var er glow.EquipmentReport
-		er.ShortID, er.Timeslot, er.PowerOutput = genU32(r), genU32(r), genU64(r)
-		ea := genAuth(r, false)
+		er.ShortID, er.Timeslot, er.PowerOutput = ccGenU32(r), ccGenU32(r), ccGenU64(r)
+		ea := ccGenAuth(r, false)
 		var gr server.GCARegistration
 		copy(gr.GCAKey[:], r.Bytes(32))
-		as := genAServer(r, 40)
-		em := server.EquipmentMigration{NewShortID: genU32(r), NewServers: []server.AuthorizedServer{genAServer(r, 20)}}
+		as := ccGenAServer(r, 40)
+		em := server.EquipmentMigration{NewShortID: ccGenU32(r), NewServers: []server.AuthorizedServer{ccGenAServer(r, 20)}}
 		copy(em.Equipment[:], r.Bytes(32))
-		ads := server.AllDeviceStats{TimeslotOffset: genU32(r)}
+		ads := server.AllDeviceStats{TimeslotOffset: ccGenU32(r)}
 		return []msg{{"EquipmentReport", er.SigningBytes()}, {"EquipmentAuthorization", ea.SigningBytes()}, {"GCARegistration", gr.SigningBytes()},
 			{"AuthorizedServer", as.SigningBytes()}, {"EquipmentMigration", em.SigningBytes()}, {"AllDeviceStats", ads.SigningBytes()}}
 	}
@@ -1114,8 +1131,8 @@ func (c *codecRun) crypto(scale int) {
 	for round := 0; round < rounds; round++ {
 		msgs := mk()
 		if c.tier == "thorough" && round == 0 {
-			d := cdev{pow: genSparse(r, false), imp: genSparse(r, true)}
-			msgs = append(msgs, msg{"AllDeviceStats", realStats([]cdev{d}, 2016, nil).SigningBytes()})
+			d := ccCdev{pow: ccGenSparse(r, false), imp: ccGenSparse(r, true)}
+			msgs = append(msgs, msg{"AllDeviceStats", ccRealStats([]ccCdev{d}, 2016, nil).SigningBytes()})
 		}
 		for _, m := range msgs {
 			pub, priv := glow.GenerateKeyPair() // real keys cannot be derived from the seed; only the messages are
@@ -1123,10 +1140,10 @@ func (c *codecRun) crypto(scale int) {
 			c.res.Count("sign.deterministic")
 			c.res.Evaluations++
 			if sig2 := glow.Sign(append([]byte{}, m.sb...), priv); sig2 != sig {
-				c.res.Fail("signing the same bytes twice gives different signatures", "sign-nondeterministic", map[string]interface{}{"type": m.typ, "message": short(m.sb)})
+				c.res.Fail("signing the same bytes twice gives different signatures", "sign-nondeterministic", map[string]interface{}{"type": m.typ, "message": ccShort(m.sb)})
 			}
 			if !glow.Verify(pub, m.sb, sig) {
-				c.res.Fail("genuine signature rejected", "verify-genuine", map[string]interface{}{"type": m.typ, "message": short(m.sb), "key": hex.EncodeToString(pub[:]), "sig": hex.EncodeToString(sig[:])})
+				c.res.Fail("genuine signature rejected", "verify-genuine", map[string]interface{}{"type": m.typ, "message": ccShort(m.sb), "key": hex.EncodeToString(pub[:]), "sig": hex.EncodeToString(sig[:])})
 			}
 			flip := func(target string, nbits int, all bool, try func(bit int) bool) {
 				pos := []int{}
@@ -1144,7 +1161,7 @@ func (c *codecRun) crypto(scale int) {
 					c.res.Count("flip." + target)
 					c.res.Evaluations++
 					if try(p) {
-						c.res.Fail("a single flipped "+target+" bit still verifies", "flip-accepted:"+target, map[string]interface{}{"type": m.typ, "bit": p, "message": short(m.sb), "key": hex.EncodeToString(pub[:]), "sig": hex.EncodeToString(sig[:])})
+						c.res.Fail("a single flipped "+target+" bit still verifies", "flip-accepted:"+target, map[string]interface{}{"type": m.typ, "bit": p, "message": ccShort(m.sb), "key": hex.EncodeToString(pub[:]), "sig": hex.EncodeToString(sig[:])})
 					}
 				}
 			}
